@@ -86,14 +86,80 @@ def run(v, tier, seed):
         if got != ("ok" if want else "denied"):
             v.violation({"what": f"authorize({priv}, {req!r}) answered {got} with grants {claims['worterbuchPrivileges']}", "claims": claims, "privilege": priv, "request": req})
             break
+    # ---- the request table on a real session: which privilege, on which pattern, each request kind is checked against ----
+    tstats = request_table(v, work)
     if diffs and not v.violations:
         i = next(i for i, (x, y) in enumerate(zip(a, b)) if x != y)
         v.violation({"what": "model and implementation disagree; every accepted containment is sound on all keys explored", "line": lines[i], "impl": a[i], "model": b[i],
                      "broken_obligation": "correspondence auth/C15 (Model/Auth.v pm, authorize)"}, no_input=True)
     v.cov.update({"evaluations": len(lines), "distinct_nontrivial": len(nontrivial), "disagreements": diffs, "accepted_pairs": accepted, "keys_checked": checked_keys,
                   "rule": f"pattern_matches(granted, requested) of the real code vs the model for every pair of patterns over {{a,b,?,#}} up to depth {depth} ({len(pats)}^2 pairs, exhaustive) + sampled pairs with empty/unicode segments to depth 5; for every accepted pair with a well-formed grant a brute-force containment check over all keys over {{a,b,c}} up to depth 5 under the three matching relations; authorize() for random grant sets x privilege x request; non-trivial = accepted pair with a pattern of more than one segment",
-                  "samples": samples, "exhaustive": True,
-                  "not_covered_here": "token validation (jsonwebtoken) and the session automaton (no service before a token; the request table) are exercised by the session engine, see C13"})
+                  "samples": samples, "exhaustive": True, **tstats,
+                  "request_table_rule": "a real in-process server with authorization required, one session per grant set (only read / only write / only delete on a/#, a parent-only read grant, a children-only read grant, nothing), every request kind sent once on keys and patterns under a/: each answer must be Unauthorized exactly when the privilege the documentation assigns to the kind (ls: read on <parent>/?) is not granted, and all messages are compared with the session model",
+                  "not_covered_here": "token validation (jsonwebtoken: signature, expiry) is the library's; random request sequences with authorization are part of C13"})
+
+KIND_PRIV = {"get": "read", "cGet": "read", "subscribe": "read", "pGet": "read", "pSubscribe": "read", "ls": "read", "pLs": "read", "subscribeLs": "read",
+             "set": "write", "cSet": "write", "sPubInit": "write", "publish": "write", "lock": "write", "acquireLock": "write", "releaseLock": "write",
+             "delete": "delete", "pDelete": "delete"}
+E_UNAUTHORIZED = 14
+
+def request_table(v, work):
+    from sessionops import R, parse_out, decode_msg, canon_session_line, align_closed
+    grantsets = {"ro": {"read": ["a/#"]}, "wo": {"write": ["a/#"]}, "do": {"delete": ["a/#"]}, "none": {},
+                 "parent": {"read": ["a"]}, "kids": {"read": ["a/?"]}, "all": {"read": ["#"], "write": ["#"], "delete": ["#"]}}
+    reqs = [("set", {"key": "a/b", "value": 1}), ("cSet", {"key": "a/c", "value": 1, "version": 0}), ("get", {"key": "a/b"}), ("cGet", {"key": "a/c"}), ("pGet", {"requestPattern": "a/?"}),
+            ("subscribe", {"key": "a/b", "unique": False}), ("pSubscribe", {"requestPattern": "a/?", "unique": False}), ("ls", {"parent": "a"}), ("pLs", {"parentPattern": "a"}),
+            ("subscribeLs", {"parent": "a"}), ("sPubInit", {"key": "a/s"}), ("publish", {"key": "a/p", "value": 1}), ("lock", {"key": "a/l"}), ("releaseLock", {"key": "a/l"}),
+            ("acquireLock", {"key": "a/l"}), ("releaseLock", {"key": "a/l"}), ("delete", {"key": "a/b"}), ("pDelete", {"requestPattern": "a/?", "quiet": None}), ("get", {"key": "a"}), ("ls", {"parent": None})]
+    cases = []
+    for nm, gr in grantsets.items():
+        ops = [("open", 0), ("auth", 0, {"sub": "u", "name": "n", "exp": 4102444800, "worterbuchPrivileges": gr})]
+        for t, (kind, body) in enumerate(reqs, start=1):
+            ops.append(("send", 0, {kind: {"transactionId": t, **body}}))
+        cases.append((f"table-{nm}", ops))
+    cpath = os.path.join(work, "table.txt")
+    write_cases(cpath, [(nm, ["cfg auth=1"] + [R(o) for o in ops]) for nm, ops in cases])
+    impl, model = run_engine("session", "session_driver", cpath, work, tag="-table")
+    A, B = read_obs(impl), read_obs(model)
+    A = {nm: align_closed(A[nm], B.get(nm, [])) for nm in A}
+    A = {nm: [canon_session_line(l) if l != 'ok' else l for l in A[nm]] for nm in A}
+    B = {nm: [canon_session_line(l) if l != 'ok' else l for l in B[nm]] for nm in B}
+    denied = served = 0
+    for nm, ops in cases:
+        gr = grantsets[nm[6:]]
+        lines = A[nm][1:]
+        for i, o in enumerate(ops):
+            if o[0] != "send": continue
+            kind, body = next(iter(o[2].items()))
+            pat = body.get("key") or body.get("requestPattern") or None
+            if kind in ("ls", "subscribeLs"): pat = (body["parent"] + "/?") if body.get("parent") else "?"
+            if kind == "pLs": pat = body["parentPattern"] + "/?"
+            want_ok = any(doc_covers(g, pat) for g in gr.get(KIND_PRIV[kind], []))
+            got = [t for s_, t in parse_out(lines[i])]
+            unauth = f"err:{body['transactionId']}:{E_UNAUTHORIZED}" in got
+            denied += unauth; served += (not unauth)
+            if unauth == want_ok:
+                v.violation({"what": f"with the grants {gr} the request {kind} {body} was {'refused as unauthorized' if unauth else 'served'}: it needs the {KIND_PRIV[kind]} privilege on {pat!r}",
+                             "case": nm, "engine": "session", "driver": "session_driver", "ops": ["cfg auth=1"] + [R(x) for x in ops[:i + 1]], "ops_readable": [str(x) for x in ops[:i + 1]]})
+                return {"request_table_requests": served + denied}
+        for i, (x, y) in enumerate(zip(A[nm], B.get(nm, []))):
+            if x != y and not v.violations:
+                v.violation({"what": "request table: session model and server disagree; every request was refused exactly when its privilege was missing", "case": nm, "engine": "session", "driver": "session_driver",
+                             "ops": ["cfg auth=1"] + [R(o) for o in ops[:i]], "impl": [(s_, decode_msg(t)) for s_, t in parse_out(x)], "model": [(s_, decode_msg(t)) for s_, t in parse_out(y)],
+                             "broken_obligation": "correspondence session/C15 (Model/Auth.v auth_requirement, Model/Session.v handle)"}, no_input=True)
+    return {"request_table_requests": served + denied, "request_table_refused": denied, "request_table_served": served}
+
+def doc_covers(g, pat):
+    """does the grant cover the requested key / pattern: every key the request can reach is matched by the grant
+    (patterns here are of the two shapes used in the table: a literal key, or literal/?)"""
+    gs, ps = g.split("/"), pat.split("/")
+    def cov(gs, ps):
+        if not gs: return not ps
+        if gs[0] == "#": return len(gs) == 1 and len(ps) >= 1
+        if not ps: return False
+        if gs[0] == "?": return ps[0] != "#" and cov(gs[1:], ps[1:])
+        return gs[0] == ps[0] and cov(gs[1:], ps[1:])
+    return cov(gs, ps)
 
 def a_pm(g, req, pairs, a, _cache={}):
     if not _cache:
